@@ -46,7 +46,8 @@ CHECKS["C05"] = dict(
     thorough=[
         R("h_theap", "part=closure n=11 keys=5 farkey=5", env=False, share=0.2),
         R("h_loop", "bound=3 seeds=16,17,7 nfd=1 ntm=3 ntk=0 nev=0 horizon=14 ops=leave,tmreg,tmunreg rules=timer-early,timer-twice,oversleep,timer-starved,%s" % ABN, share=0.3),
-        R("h_theap", "part=closure n=12 keys=5 handlers=6", env=False, share=0.4),
+        R("h_theap", "part=closure n=12 keys=5", env=False, share=0.4),
+        R("h_theap", "part=closure n=10 keys=4 handlers=6", env=False, share=0.4),
         R("h_theap", "part=closure n=16 keys=2 handlers=5", env=False),
         R("h_theap", "part=closure n=14 keys=3", env=False, share=0.3),
         R("h_theap", "part=boundary depth=3", env=False),
@@ -86,11 +87,12 @@ CHECKS["C01"] = dict(
         R("h_loop", "bound=2 seeds=%s nfd=3 ntm=3 ntk=2 nev=2 nraw=1 nsig=1 ops=%s rules=stale-callback,cookie,oneshot-registered,%s" % (ALL_SEEDS_C01, UNREG_OPS, ABN)),
         # any API action from any callback, 1 deviation
         R("h_loop", "bound=1 seeds=%s,1,5,13,14,15,16,19,20 nfd=3 ntm=3 ntk=2 nev=2 nraw=1 nsig=1 nwk=1 rules=stale-callback,cookie,oneshot-registered,%s" % (ALL_SEEDS_C01, ABN)),
-        R("h_inotify", "bound=1"),
+        R("h_inotify", "bound=1 workers=40"),
         # cross-thread posts: the owner's event handlers unregister+free other events and the owner's descriptor
         R("h_event_mt", "bound=2 transports=0-3 p1=0,3,4 p2=0,3 hacts=1", sched=True),
         # child-wait interests: unregister from the handler / by command while further statuses are queued
         R("h_wait", "bound=1 steps=4", sched=True),
+        R("h_wait", "bound=2 steps=2 pops=0,1", sched=True),
     ],
     thorough=[
         R("h_event_mt", "bound=3 transports=0-3 hacts=2", sched=True, share=0.3),
@@ -112,16 +114,16 @@ FD_OPS = "leave,fdreg,fdtry,fdtrybad,fdunreg,fdseth,feed,drain,fill,unfill,pclos
 FD_SEEDS = "1,2,3,4,5,14,15,19,22,24,26,28,29"
 CHECKS["C02"] = dict(
     quick=[
-        R("h_loop", "bound=2 seeds=%s nfd=3 ntm=0 ntk=1 nev=0 ops=%s rules=fd-sleep,fd-starved,%s" % (FD_SEEDS, FD_OPS, ABN)),
+        R("h_loop", "bound=2 seeds=%s nfd=3 ntm=0 ntk=1 nev=0 ops=%s rules=fd-sleep,fd-starved,fd-skipped,%s" % (FD_SEEDS, FD_OPS, ABN)),
         # caller memory with other byte patterns; a struct whose registration failed is initialised again and re-used
-        R("h_loop", "bound=2 poisons=1 seeds=0,1,19 nfd=2 ntm=0 ntk=0 nev=0 ops=leave,fdreg,fdtrybad,fdunreg,feed rules=fd-sleep,fd-starved,%s" % ABN),
+        R("h_loop", "bound=2 poisons=1 seeds=0,1,19 nfd=2 ntm=0 ntk=0 nev=0 ops=leave,fdreg,fdtrybad,fdunreg,feed rules=fd-sleep,fd-starved,fd-skipped,%s" % ABN),
     ],
     thorough=[
         # full alphabet at bound 2, then smaller alphabets sized so that bounds 3 and 4 run to completion
-        R("h_loop", "bound=2 seeds=%s nfd=3 ntm=0 ntk=1 nev=0 ops=%s rules=fd-sleep,fd-starved,%s" % (FD_SEEDS, FD_OPS, ABN)),
-        R("h_loop", "bound=2 poisons=1 seeds=0,1,4,19 nfd=2 ntm=0 ntk=1 nev=0 ops=leave,fdreg,fdtry,fdtrybad,fdunreg,fdseth,feed rules=fd-sleep,fd-starved,%s" % ABN),
-        R("h_loop", "bound=3 seeds=1,3,4,15,28,29 nfd=2 ntm=0 ntk=0 nev=0 ops=leave,fdreg,fdunreg,fdseth,feed,pclose,drain rules=fd-sleep,fd-starved,%s" % ABN, share=0.7),
-        R("h_loop", "bound=4 seeds=1,5 nfd=1 ntm=0 ntk=0 nev=0 ops=leave,fdseth,feed,drain,fdunreg rules=fd-sleep,fd-starved,%s" % ABN),
+        R("h_loop", "bound=2 seeds=%s nfd=3 ntm=0 ntk=1 nev=0 ops=%s rules=fd-sleep,fd-starved,fd-skipped,%s" % (FD_SEEDS, FD_OPS, ABN)),
+        R("h_loop", "bound=2 poisons=1 seeds=0,1,4,19 nfd=2 ntm=0 ntk=1 nev=0 ops=leave,fdreg,fdtry,fdtrybad,fdunreg,fdseth,feed rules=fd-sleep,fd-starved,fd-skipped,%s" % ABN),
+        R("h_loop", "bound=3 seeds=1,3,4,15,28,29 nfd=2 ntm=0 ntk=0 nev=0 ops=leave,fdreg,fdunreg,fdseth,feed,pclose,drain rules=fd-sleep,fd-starved,fd-skipped,%s" % ABN, share=0.7),
+        R("h_loop", "bound=4 seeds=1,5 nfd=1 ntm=0 ntk=0 nev=0 ops=leave,fdseth,feed,drain,fdunreg rules=fd-sleep,fd-starved,fd-skipped,%s" % ABN),
     ],
     rule=CHECKS["C01"]["rule"],
     explanation="at every entry to the kernel wait the harness takes poll(2) ground truth for every registered descriptor: if a band has a "
@@ -147,7 +149,7 @@ CHECKS["C03"] = dict(
     deadline=dict(quick=150, thorough=900),
 )
 TM_OPS = "leave,tmreg,tmunreg,feed,drain,tkreg,timepass,fdunreg"
-TM_SEEDS = "0,7,8,13,16,17,18,6"
+TM_SEEDS = "0,7,8,13,16,17,18,6,30"
 CHECKS["C04"] = dict(
     quick=[
         R("h_loop", "bound=2 seeds=%s nfd=1 ntm=3 ntk=1 nev=0 horizon=14 ops=%s rules=timer-early,timer-twice,oversleep,stale-callback,oneshot-registered,%s" % (TM_SEEDS, TM_OPS, ABN)),
@@ -242,11 +244,12 @@ INO_ASSUME = ["real inotify of the host kernel on a tmpfs scratch directory; no 
               "(the kernel's cross-group notification order is address dependent)",
               "bursts of <=2 operations before the first poll plus an optional later one; <=4 watches, <=2 instances"]
 CHECKS["C20"] = dict(
-    quick=[R("h_inotify", "bound=1"),
+    quick=[R("h_inotify", "bound=1 workers=40"),
+           R("h_inotify", "bound=2 presets=3 workers=40"),
            # two threads, each with its own instance and watched directory, dispatching concurrently
            R("h_loops_mt", "bound=2 ino=1 sig=0", sched=True),
            R("h_loops_mt", "bound=1 ino=1 sig=0 scan_stderr=1", variant="tsan", sched=True)],
-    thorough=[R("h_inotify", "bound=2", share=0.5), R("h_inotify", "bound=3")],
+    thorough=[R("h_inotify", "bound=2 workers=40", share=0.5), R("h_inotify", "bound=3 workers=40")],
     rule="5 watch-set presets (directory / file / second directory / one-shot / two instances) x 7x7 bursts of filesystem operations "
          "(create, write, rename within, rename across, unlink, rmdir of a watched directory) x optional second round, all crossed "
          "(cost-free configuration choices); at every delivered event the handler's action is a choice among {nothing, unregister this "
@@ -267,7 +270,9 @@ MT_ASSUME = [
     "bound = preemptions (switching away from a thread that could continue) + non-default program actions",
 ]
 CHECKS["C08"] = dict(
-    quick=[R("h_event_mt", "bound=2 transports=0-3 hacts=1 p1=0,1,3,4,5 p2=0,1,3", sched=True)],
+    quick=[R("h_event_mt", "bound=2 transports=0-3 hacts=1 p1=0,1,3,4,5 p2=0,1,3", sched=True),
+           # owner-side posts, iv_quit from a handler, iv_main entered again
+           R("h_loop", "bound=2 seeds=31,10,20 nfd=1 ntm=0 ntk=1 nev=2 ops=leave,evpost,evreg,evunreg,quit,tkreg rules=event-,main-,stale-callback,%s" % ABN)],
     thorough=[R("h_event_mt", "bound=2 transports=0-4 hacts=2", sched=True, share=0.3),
               R("h_event_mt", "bound=3 transports=0-3 p1=0,1,3,4 p2=0,1,3 hacts=1", sched=True, share=0.6),
               R("h_event_mt", "bound=4 transports=0,2 p1=0,3 p2=0,1 hacts=0", sched=True, share=0.5),
@@ -473,7 +478,7 @@ CHECKS["C18"] = dict(
         R("h_pump", "mode=rw bound=3"),
         R("h_pump", "mode=splice bound=1"),
         R("h_pump", "mode=many bound=0"),
-        R("h_inotify", "bound=0"),
+        R("h_inotify", "bound=0 workers=40"),
         R("h_popen", "bound=0"),
         R("h_thread", "bound=2", sched=True),
         R("h_work", "bound=1 methods=0,3 progs=1,4,5 puts=0,3", sched=True),
@@ -486,7 +491,7 @@ CHECKS["C18"] = dict(
         R("h_theap", "part=boundary depth=3", env=False),
         R("h_pump", "mode=rw bound=6"),
         R("h_pump", "mode=splice bound=2"),
-        R("h_inotify", "bound=1"),
+        R("h_inotify", "bound=1 workers=40"),
         R("h_popen", "bound=0"),
         R("h_thread", "bound=4", sched=True),
         R("h_work", "bound=1", sched=True),
